@@ -325,8 +325,8 @@ CLAIMED = {
         "get_model_from_str hands model_str unchanged to Parser.parse, model_from_str / internal_model_from_file hand the "
         "given string (or exactly what open(abspath(file), encoding=...).read() returned) unchanged to it. "
         "NOT proved, assumed (T-ARP): that Arpeggio's node positions delimit exactly the matched non-empty text, nest and "
-        "are ordered; a bounded battery of loads with the real parser (LF/CRLF/tabs/comments, strings and files, three "
-        "configurations) checks the end-to-end statement and is reported separately, never counted as proved.",
+        "are ordered; a bounded battery of loads with the real parser (LF/CRLF/tabs/comments, strings and files, four "
+        "configurations, one of them with user classes) checks the end-to-end statement and is reported separately, never counted as proved.",
         "Partial claim: non-emptiness, nesting and ordering of spans are properties of Arpeggio's parse tree (assumed, "
         "bounded battery only). Attribute stores on objects under construction are plain stores (A-PLAIN-ATTR; the "
         "instrumented user-class path is C14).",
